@@ -41,6 +41,8 @@ FamilySet == CASE Fam = "F1" -> {<<b>> : b \in F1Bodies}
                [] Fam = "TSH" -> TrimShare
                [] Fam = "SNG" -> SingleBodies
                [] Fam = "TLR" -> TrimLR
+               [] Fam = "HIDR" -> HiddenRight
+               [] Fam = "OPTLR" -> OptLR
                [] Fam = "LRF" -> {<<b>> : b \in LRFreeBodies}
                [] Fam = "OPT" -> {<<b>> : b \in OptBodies}
                [] Fam = "LINES" -> {<<b>> : b \in LineBodies}
